@@ -586,7 +586,11 @@ def form_specs(draw, profile=None):
     if cell == "prism":
         pool = [(t, E) for t, E in pool if t in ("P", "DG", "vecP", "vecDG", "real", "tensorP", "symP")]
     allowed = pr.get("element_tags")
+    coef_pool = None
     if allowed:
+        if pr.get("coef_element_tags"):
+            # coefficients may live in further spaces than the arguments (C03: Piola-mapped coefficients, Lagrange arguments)
+            coef_pool = [(t, E) for t, E in pool if t in allowed or (t, E[2] if E[0] == "el" else None) in [tuple(x) for x in pr["coef_element_tags"]]]
         pool = [(t, E) for t, E in pool if t in allowed]
     if pr.get("tp"):
         # tensor-product factorised elements (the only ones sum factorisation accepts), as in test_tensor_product.py
@@ -605,7 +609,7 @@ def form_specs(draw, profile=None):
     tags = []
 
     def new_element(argument=False):
-        cand = pool
+        cand = pool if (argument or coef_pool is None) else coef_pool
         if argument:
             # arguments in real/quadrature spaces are legal but make most operators vanish
             cand = [(t, E) for t, E in pool if t != "real"] or pool
